@@ -6,13 +6,17 @@ clear). The harness (1) checks the protocol the real Guard speaks to its cache a
 `stepCached` op shapes (recording cache), (2) probes `KeyFaithful` on near-duplicate request pools
 (equal real keys ⇒ equal model envs), (3) runs histories on real engines with the built-in LRU+TTL
 cache, a dict cache and a copying cache — alone or shared by a second engine (other policy, strict
-mode) — next to uncached engines holding the same current policies and compares every Decision field."""
+mode) — next to uncached engines holding the same current policies and compares every Decision field,
+(4) ties the Lean model of the key's canonical serialiser (`Rbacx.canonJson`, proved injective up to
+dict-entry order: `Rbacx.C08.c08_canon_json_injective`, `c08_key_injective`) to the real
+`Guard._normalize_env_for_cache` / `Guard._cache_key` on thousands of JSON-valued environments."""
 from __future__ import annotations
 
 import copy
 import itertools
 import json
 import random
+from datetime import datetime
 
 import gen
 import lib
@@ -113,18 +117,24 @@ def decision(g: Guard, r: dict):
     return {f: proto.canon(getattr(d, f)) for f in FIELDS}
 
 
-def model_env(r: dict, strict: bool) -> str:
-    env = {"subject": {"id": r["sid"], "roles": list(r["roles"]), "attrs": dict(r["sattrs"])}, "action": r["action"],
-           "resource": {"type": r["rtype"], "id": r["rid"], "attrs": dict(r["rattrs"])}, "context": dict(r["ctx"])}
+def env_dict(r: dict, strict: bool) -> dict:
+    """the environment `Guard._evaluate_core_async` builds for this request (no role resolver)"""
+    env = {"subject": {"id": r["sid"], "roles": list(r["roles"] or []), "attrs": dict(r["sattrs"])}, "action": r["action"],
+           "resource": {"type": r["rtype"], "id": r["rid"], "attrs": dict(r["rattrs"])}, "context": dict(r["ctx"] or {})}
     if strict:
         env["__strict_types__"] = True
+    return env
+
+
+def model_env(r: dict, strict: bool) -> str:
     # env equality as the model sees it: structural, dict order irrelevant
-    return proto.canon_unordered(env)
+    return proto.canon_unordered(env_dict(r, strict))
 
 
-def check_keys_and_protocol(run: lib.Run):
-    """KeyFaithful probe + protocol shape"""
+def check_keys_and_protocol(run: lib.Run) -> list:
+    """KeyFaithful probe + protocol shape; returns the real (etag, key, env) triples seen on the cache protocol"""
     seen: dict[str, tuple] = {}
+    real_keys: list = []
     for pi, pol in enumerate(POLICIES):
         for strict in (False, True):
             rec = Recording(DictCache())
@@ -148,6 +158,7 @@ def check_keys_and_protocol(run: lib.Run):
                                               "spec": "a miss must be exactly get(key) then set(key, …) with the same key"})
                     continue
                 key = ops[0][1]
+                real_keys.append((g.policy_etag, key, env_dict(r, strict)))
                 me = (pi, model_env(r, strict))
                 if key in seen and seen[key] != me:
                     run.spec_failures.append({"part": "cache key", "key": key[:200], "first": seen[key], "second": me,
@@ -167,6 +178,162 @@ def check_keys_and_protocol(run: lib.Run):
             if rec.ops != [("clear",)]:
                 run.spec_failures.append({"part": "cache protocol", "ops": list(rec.ops), "spec": "clear_cache must clear the cache"})
     run.count("key-probe:distinct-keys", len(seen))
+    return real_keys
+
+
+# ----------------------------------------------------------------------------- the key's canonical serialiser
+
+CANON_WHAT = "model Rbacx.canonJson vs Guard._normalize_env_for_cache"
+HOSTILE_PIECES = ['"', "\\", "/", "\n", "\r", "\t", "\b", "\f", "\x00", "\x01", "\x0b", "\x1c", "\x1f", " ", "\x7f", "\x80", "\x85", "\x9f", "\xa0",
+                  "\u00e9", "e\u0301", "\u2028", "\u2029", "\ufeff", "\ud7ff", "\ue000", "\uffff", "\U0001d11e", "\U00010000", "\U0010ffff", ",", ":", "{", "}", "[", "]",
+                  "null", "true", "false", "1", "-", "0", "a", "A", "b", "u", "\\u0041", "\\n", "Z", "z", "NaN", "१"]
+BIG_INTS = [0, -0, 1, -1, 9, 10, -10, 99, 100, 2**31, -(2**31), 2**53 + 1, 2**63, -(2**63), 2**64, 10**30, -(10**40), 10**400, -(10**400),
+            10**4299, -(10**4298), 123456789012345678901234567890, -98765432109876543210]
+
+
+def gen_str(r: random.Random) -> str:
+    return "".join(gen.choice(r, HOSTILE_PIECES) for _ in range(r.randrange(0, 6)))
+
+
+def gen_json(r: random.Random, depth: int):
+    """a float-free JSON value biased towards what could confuse a serialiser"""
+    k = r.random()
+    if depth <= 0 or k < 0.45:
+        t = r.random()
+        if t < 0.3:
+            return gen.choice(r, [None, True, False, 1, "1", "True", "true", "None", "null", 0, "0", "", [], {}, "[]", "{}", -1, "-1"])
+        if t < 0.5:
+            return gen.choice(r, BIG_INTS) if r.random() < 0.5 else r.randrange(-10**r.randrange(1, 40), 10**r.randrange(1, 40))
+        return gen_str(r)
+    if k < 0.7:
+        return [gen_json(r, depth - 1) for _ in range(r.randrange(0, 4))]
+    return {(gen_str(r) if r.random() < 0.7 else gen.choice(r, ["a", "b", "ab", "a.b", "k", ""])): gen_json(r, depth - 1) for _ in range(r.randrange(0, 5))}
+
+
+def defloat(v, r: random.Random):
+    """replace floats (outside the model's proved domain) by an int, their repr or a bool"""
+    if isinstance(v, float):
+        return gen.choice(r, [int(v) if v == v and abs(v) != float("inf") else 0, repr(v), v == 1.0])
+    if isinstance(v, (list, tuple)):
+        return [defloat(x, r) for x in v]
+    if isinstance(v, dict):
+        return {k: defloat(x, r) for k, x in v.items()}
+    return v
+
+
+def has_float(v) -> bool:
+    """outside the model's proved domain: a float or a datetime somewhere"""
+    if isinstance(v, (float, datetime)):
+        return True
+    if isinstance(v, (list, tuple)):
+        return any(has_float(x) for x in v)
+    if isinstance(v, dict):
+        return any(has_float(x) for x in v.values())
+    return False
+
+
+def has_datetime(v) -> bool:
+    """a datetime and its str() share a text (`default=str`, DESIGN §6 F15) — outside the quantifier"""
+    if isinstance(v, (list, tuple)):
+        return any(has_datetime(x) for x in v)
+    if isinstance(v, dict):
+        return any(has_datetime(x) for x in v.values())
+    return isinstance(v, datetime)
+
+
+def shuffled(v, r: random.Random):
+    """the same value with every dict rebuilt in another insertion order"""
+    if isinstance(v, (list, tuple)):
+        return [shuffled(x, r) for x in v]
+    if isinstance(v, dict):
+        ks = list(v)
+        r.shuffle(ks)
+        return {k: shuffled(v[k], r) for k in ks}
+    return v
+
+
+def interesting(v) -> bool:
+    """non-trivial for the serialiser: a dict with ≥2 keys somewhere, or a string that needs escaping"""
+    if isinstance(v, str):
+        return any(c in '"\\' or ord(c) < 0x20 for c in v)
+    if isinstance(v, (list, tuple)):
+        return any(interesting(x) for x in v)
+    if isinstance(v, dict):
+        return len(v) >= 2 or any(interesting(k) or interesting(x) for k, x in v.items())
+    return False
+
+
+def canon_envs(run: lib.Run, scale: int) -> list:
+    """(label, value, index of the original this is a shuffled twin of | None) for the serialiser tie"""
+    r = random.Random(run.seed * 524287 + 88 + scale)
+    n = (1000 if run.tier == "quick" else 8000) * scale
+    out = []
+    for rq in POOL:
+        for strict in (False, True):
+            out.append(("pool", env_dict(rq, strict)))
+    for i in range(n):
+        rq = gen.gen_request(r, POLICIES[i % 3], hostile=(i % 4 == 0))
+        e = env_dict(rq, bool(i % 2))
+        out.append(("request", e if i % 5 == 0 else defloat(e, r)))
+    for i in range(n):
+        v = gen.gen_value(r, 3, hostile=(i % 3 == 0))
+        out.append(("value", v if i % 5 == 0 else defloat(v, r)))
+    for i in range(2 * n):
+        out.append(("hostile", gen_json(r, 3)))
+    for i in range(n // 2):
+        # an environment whose ids / roles / attrs / context carry hostile data
+        rq = req(sid=gen_json(r, 0), roles=[gen_str(r) for _ in range(r.randrange(0, 3))], rid=gen_json(r, 0),
+                 rattrs={gen_str(r): gen_json(r, 1) for _ in range(r.randrange(0, 3))},
+                 ctx={gen_str(r): gen_json(r, 2) for _ in range(r.randrange(0, 4))})
+        out.append(("hostile-env", env_dict(rq, bool(i % 2))))
+    cases = [(lab, v, None) for lab, v in out]
+    cases += [(lab + "+shuffled", shuffled(v, r), i) for i, (lab, v) in enumerate(out) if isinstance(v, dict)]
+    return cases
+
+
+def check_canon_model(run: lib.Run, real_keys: list, scale: int = 1):
+    """the Lean model of the canonical serialiser against the real one; real-vs-real injectivity / key-order probes"""
+    cases = canon_envs(run, scale)
+    cmds = [{"cmd": "canon-json", "value": proto.enc(v)} for _, v, _ in cases] + \
+           [{"cmd": "canon-json", "value": proto.enc(env)} for _, _, env in real_keys]
+    outs = proto.run_driver(cmds)
+    texts = [Guard._normalize_env_for_cache(v) for _, v, _ in cases]
+    by_text: dict[str, str] = {}
+    for (lab, v, twin_of), o, text in zip(cases, outs, texts):
+        ff = not has_float(v)
+        run.case(["canon", text], ff and interesting(v), {"value": v, "canonical": text} if lab == "hostile-env" and interesting(v) else None)
+        if o["float_free"] != ff or not o["no_dup_keys"]:
+            run.disagreements.append({"part": "canon", "what": CANON_WHAT, "label": lab, "value": v, "model": o, "impl": text,
+                                      "note": "the model's domain predicates (floatFree / noDupKeys) differ from the Python-side value"})
+        elif not ff:
+            run.count("canon:float/datetime (outside the model's domain, model answers null)")
+            if o["text"] is not None:
+                run.disagreements.append({"part": "canon", "what": CANON_WHAT, "label": lab, "value": v, "model": o, "impl": text})
+        elif o["text"] != text:
+            run.count("canon:DISAGREE")
+            run.disagreements.append({"part": "canon", "what": CANON_WHAT, "label": lab, "value": v, "model": o["text"], "impl": text})
+        else:
+            run.count(f"canon:agree:{lab}")
+        # real-vs-real: one text ⇒ one value up to dict order (what c08_canon_json_injective says of the model) …
+        cu = proto.canon_unordered(v)
+        if not has_datetime(v) and by_text.setdefault(text, cu) != cu:
+            run.spec_failures.append({"part": "canon", "value": v, "canonical": text[:300], "other": by_text[text][:300],
+                                      "spec": "two different environments share one canonical text (KeyFaithful violated)"})
+        # … and a twin with shuffled dict insertion order prints exactly like its original (sort_keys)
+        if twin_of is not None and text != texts[twin_of]:
+            run.spec_failures.append({"part": "canon", "value": v, "other": cases[twin_of][1], "canonical": text[:300],
+                                      "spec": "the canonical text depends on the insertion order of dict entries"})
+    run.count("canon:distinct-texts", len(by_text))
+    # the real keys seen on the cache protocol are `etag:model text` (Rbacx.cacheKeyOf)
+    for (etag, key, env), o in zip(real_keys, outs[len(cases):]):
+        run.evaluations += 1
+        if has_float(env):
+            run.count("key:float (outside the model's domain)")
+        elif o["text"] is None or key != f"{etag}:{o['text']}":
+            run.disagreements.append({"part": "canon", "what": "model Rbacx.cacheKeyOf vs the key Guard passes to cache.get", "value": env,
+                                      "model": None if o["text"] is None else f"{etag}:{o['text']}", "impl": key})
+        else:
+            run.count("key:agree (etag:model text = real cache key)")
 
 
 ALPHABET = [("eval", 0, 0), ("eval", 0, 1), ("eval", 0, 17), ("eval", 1, 0), ("eval", 1, 7), ("set", 0, 1), ("set", 0, 0), ("set", 1, 2),
@@ -259,22 +426,43 @@ def check(run: lib.Run, audit: dict) -> int:
                 "histories of length 5–60 over a 26-request near-duplicate pool; key probe: 3 policies × lax/strict × the pool; protocol shape. "
                 "non-trivial = a history with ≥2 evaluations")
     run.exhaustive = True
-    run.assumptions = ["KeyFaithful: sha3-256 of the sorted policy JSON and the canonical env JSON are injective on JSON-valued envs (probed, not proved)",
+    run.rule += ("; serialiser tie (model Rbacx.canonJson vs Guard._normalize_env_for_cache): the 26-request pool × lax/strict, random requests towards "
+                 "3 policies, gen_value trees, hostile float-free JSON (quotes, backslashes, every control-character class, U+007F/U+0085/U+2028, "
+                 "astral, empty containers, ints up to 4300 digits, keys that are prefixes / escapes of each other) and hostile environments, each "
+                 "dict-valued case again with every dict's insertion order shuffled; floats ⇒ the model answers null; the real keys on the cache "
+                 "protocol = etag:model text")
+    run.assumptions = ["KeyFaithful is reduced by Rbacx.C08.c08_key_faithful to: sha3-256 of the sorted policy JSON collision-free on the policies in "
+                       "play; the raw decision independent of the ORDER of dict entries of the env; envs JSON-valued, float-free, datetime-free. The "
+                       "canonical serialiser itself is PROVED injective up to dict-entry order (c08_canon_json_injective, c08_key_injective) and tied "
+                       "to the real one on every run; floats (float.__repr__) stay oracle behaviour, probed only",
                        "requests are JSON-valued (a datetime and its str() share a key — outside the quantifier, DESIGN §6 F15)",
                        "the obligation checker is a function of (raw decision, context)"]
     if not audit["ok"]:
         raise lib.CheckError(f"Lean build/audit failed at {audit['stage']}: {audit.get('log') or audit.get('forbidden') or audit.get('bad_axioms')}")
-    check_keys_and_protocol(run)
+    real_keys = check_keys_and_protocol(run)
+    check_canon_model(run, real_keys)
     run_cases(run)
     violations = []
+    if run.disagreements and not run.spec_failures:
+        check_canon_model(run, real_keys, scale=5)  # correspondence broke: widen the search for two envs sharing a real key
     if run.spec_failures:
         path = run.write_replay("spec", {"what": "C08 violated", "case": run.spec_failures[0], "count": len(run.spec_failures)})
         violations.append((path, True))
+    elif run.disagreements:
+        path = run.write_replay("correspondence", {"what": f"{run.disagreements[0].get('what', CANON_WHAT)}: the model of the cache key's canonical "
+                                                   "serialiser and the implementation disagree; theorems Rbacx.C08.c08_canon_json_injective / "
+                                                   "c08_key_injective / c08_key_faithful no longer speak about this code",
+                                                   "case": run.disagreements[0], "count": len(run.disagreements)})
+        violations.append((path, False))
     return run.finish(audit, violations)
 
 
 def replay(run: lib.Run, audit: dict, path: str) -> int:
     c = json.load(open(path))["case"]
+    if c.get("part") == "canon":
+        out = proto.run_driver([{"cmd": "canon-json", "value": proto.enc(c["value"])}])[0]
+        print("now: impl :", Guard._normalize_env_for_cache(c["value"])[:1500])
+        print("now: model:", (out["text"] if out["text"] is not None else "<outside the model's domain>")[:1500])
     if c.get("part") == "history":
         hist = [tuple(o) for o in c["history"]]
         print("now:", run_history(hist, c["maxsize"], c["ttl"], c["cache"], False), run_history(hist, c["maxsize"], c["ttl"], c["cache"], True))
